@@ -38,7 +38,19 @@ def er_facts(F, S):
     ok_shape = isinstance(ret, tuple) and ret[0] == "/"
     if ok_shape:
         okn, cx = equal(ret[1], ("abs", ("-", first, x)))
-        if okn:
+        import specs as _sp
+        hz_ = _sp.float_hazard(ret[1], ("abs", ("-", first, x))) if okn else None
+        if not hz_ and okn:
+            from norm import hazards as _hz
+            for lay_ in [d_ for d_ in subterms(ret[2]) if isinstance(d_, tuple) and d_ and d_[0] == "accum"]:
+                hh_ = _hz(lay_[2])
+                if hh_:
+                    hz_ = hh_[0]
+                    break
+        if hz_:
+            okn = False
+            S.bad("O4", "foreign-constant", fn.label, "%s computes the efficiency ratio with %s: equal to the documented formula in real arithmetic only" % (fn.label, hz_), "%s:%s" % (fn.span["file"], fn.span["line"]))
+        elif okn:
             S.ok("O4", "ER numerator = |reference - x|, reference = the slot about to be overwritten once the window is full (slot 0 during warm-up)")
         else:
             S.bad("O4", "er-numerator", fn.label, "%s: numerator is %s; documented |x_t - x_{t-n}| (reference %s)" % (fn.label, show(ret[1])[:140], show(first)[:100]), "%s:%s" % (fn.span["file"], fn.span["line"]))
